@@ -10,6 +10,7 @@ canonical form (`wf_norm`).
 -/
 import Hts.Lemmas.IndexIO
 import Hts.Lemmas.IndexIOTabix
+import Hts.Lemmas.IndexTabixNames
 import Hts.Lemmas.IndexIOCsi
 import Hts.Lemmas.IndexStats
 import Hts.Props.C04
@@ -113,6 +114,24 @@ theorem tabix_chunks_norm (adj : List Chunk → List Chunk) (t : Tabix.TIndex) (
   cases Tabix.mapGet t.nameMap name with
   | none => rfl
   | some id => simp only [IndexIO.chunks_norm]; rfl
+
+/-- for every tabix index built by `Add` (any input, sorted or not) the name table is consistent:
+as many names as references, pairwise distinct, and the map rebuilt by `ReadFrom` resolves every name
+as the map maintained by `Add` does -/
+theorem tabix_names_consistent (hdr : Tabix.Header) (recs : List Tabix.TRec) :
+    (Hts.Props.C04.tbxBuilt hdr recs).names.length = (Hts.Props.C04.tbxBuilt hdr recs).idx.refs.length ∧
+    (Hts.Props.C04.tbxBuilt hdr recs).names.Nodup ∧
+    ∀ name, Tabix.mapGet (Tabix.buildMap (Hts.Props.C04.tbxBuilt hdr recs).names) name =
+      Tabix.mapGet (Hts.Props.C04.tbxBuilt hdr recs).nameMap name :=
+  ⟨Tabix.addAll_count Coord.binFor recs _ (Tabix.nameInv_empty hdr) rfl,
+   (Tabix.addAll_nameInv Coord.binFor recs _ (Tabix.nameInv_empty hdr)).nodup,
+   Tabix.built_map_agrees Coord.binFor hdr recs⟩
+
+/-- hence every query by name is answered identically by the re-read form of a built index -/
+theorem tabix_chunks_norm_built (hdr : Tabix.Header) (recs : List Tabix.TRec) (name : Tabix.Name) (beg stop : Int) :
+    Tabix.chunks Coord.overlappingBinsFor Local.adjacent (normTabix (Hts.Props.C04.tbxBuilt hdr recs)) name beg stop =
+      Tabix.chunks Coord.overlappingBinsFor Local.adjacent (Hts.Props.C04.tbxBuilt hdr recs) name beg stop :=
+  tabix_chunks_norm _ _ name beg stop (Tabix.built_map_agrees Coord.binFor hdr recs name)
 
 /-- the zero-reference case for tabix (same finding as BAI) -/
 theorem tabix_read_write_noRefs (hdr : Tabix.Header) : readTabix (writeTabix { hdr := hdr }) = .ok none := by
